@@ -255,3 +255,97 @@ func VerifBlockScopes() {
 	vAssert(ast.String() == want, "tree-differs-from-grammar-structure")
 	vReach("scopes")
 }
+
+// VerifForInit (C03): `in` is not an operator directly inside the initialiser of a for(;;) head, but
+// it is one again inside any bracket, function body, class body or template substitution nested
+// in the initialiser. Every initialiser below is valid; it must be accepted and have the same
+// structure as the same expression in an ordinary declaration.
+var vnForInits = []string{
+	"(o,k)=>{return k in o}", "(o)=>{for(var x in o);}", "()=>{if(a in b);}", "o=>(a in o)", "async(o)=>{return a in o}",
+	"function(){return a in b}", "function*(){yield a in b}", "class{m(){return a in b}}", "{m(){return a in b}}", "{k:(a in b)}",
+	"[a in b]", "(a in b)", "f(a in b)", "`${a in b}`", "o[a in b]", "new C(a in b)", "f?.(a in b)", "o?.[a in b]", "new C(x)(a in b)", "t`${a in b}`", "{get p(){return a in b}}", "c?(a in b):d",
+}
+
+func VerifForInit() {
+	init := vnForInits[vRange("init", 0, len(vnForInits)-1)]
+	kw := []string{"var", "let", "const"}[vRange("kw", 0, 2)]
+	o := Options{WhileToFor: vRange("whileToFor", 0, 1) == 1}
+	plain := []byte(kw + " h=" + init + ";")
+	ast1, err1 := Parse(parse.NewInputBytes(append(make([]byte, 0, len(plain)+1), plain...)), o)
+	vAssert(err1 == nil, "declaration-rejected")
+	if err1 != nil {
+		return
+	}
+	decl := ast1.String() // Decl(var Binding(h = ...))
+	src := []byte("for(" + kw + " h=" + init + ",i=0;i<n;i++){}")
+	ast2, err2 := Parse(parse.NewInputBytes(append(make([]byte, 0, len(src)+1), src...)), o)
+	vAssert(err2 == nil, "valid-for-initialiser-rejected")
+	if err2 != nil {
+		return
+	}
+	want := "Stmt(for " + decl[:len(decl)-1] + " Binding(i = 0)) ; (i<n) ; (i++) Stmt({ }))"
+	vAssert(ast2.String() == want, "for-initialiser-structure-differs")
+	vReach("forinit")
+}
+
+// VerifHeadForms (C05): printed forms whose meaning depends on parentheses or on the spelling of a
+// property name at the head of a statement / for head / member list: the print must keep what
+// is load-bearing, so that the printed text re-parses to the same tree and re-prints identically.
+var vnHeadForms = []string{
+	"(let)[i]=v;", "(let)[0];", "for((let)of xs);", "for((let).x in o);", "for((let).x=0;;);", "for((async)of xs);",
+	"(async)\n(x);", "(function(){})();", "(class{})();", "({}).x;", "({a}=b);", "(a,b);", "(let);", "(yield);",
+	"x={\"async\"(cb){}};", "x={async\n(cb){}};", "x={async(){}};", "x={async:1};", "x={get:1,set(){},static(){}};", "x={\"get\"(){}};",
+	"x={'a b'(){},1(){},[k](){}};", "class A{'async'(){}};", "class A{static\nasync(){}};", "x={get\nget(){}};", "x={async*async(){}};",
+	"if(a){}else{}", "a=b\n++c", "a\n;[b]", "let\na", "x=y/z/w", "x= +(+a)", "x=-(-a)", "x=a- -b", "x=a+ +b", "x=!(!a)", "x=typeof(typeof a)",
+}
+
+func VerifHeadForms() {
+	src := []byte(vnHeadForms[vRange("form", 0, len(vnHeadForms)-1)])
+	o := Options{WhileToFor: vRange("whileToFor", 0, 1) == 1}
+	ast, err := Parse(parse.NewInputBytes(append(make([]byte, 0, len(src)+1), src...)), o)
+	if err != nil {
+		vReach("rejected") // not every form is valid under every reading; only accepted ones must round-trip
+		return
+	}
+	out := ast.JSString()
+	ast2, err2 := Parse(parse.NewInputBytes(append(make([]byte, 0, len(out)+1), out...)), Options{})
+	vAssert(err2 == nil, "printed-program-rejected")
+	if err2 != nil {
+		return
+	}
+	vAssert(vnStripGroups(ast2.String()) == vnStripGroups(ast.String()), "reparsed-tree-differs")
+	vAssert(ast2.JSString() == out, "second-print-differs")
+	vReach("headforms")
+}
+
+// vnStripGroups removes redundant "((" "))" pairs introduced by GroupExpr nodes: the comparison is
+// on the structure modulo parenthesis nodes.
+func vnStripGroups(s string) string {
+	for {
+		changed := false
+		for i := 0; i+1 < len(s); i++ {
+			if s[i] == '(' && s[i+1] == '(' {
+				// find the matching closers
+				d, j := 0, i+1
+				for ; j < len(s); j++ {
+					if s[j] == '(' {
+						d++
+					} else if s[j] == ')' {
+						d--
+						if d == 0 {
+							break
+						}
+					}
+				}
+				if j+1 < len(s) && s[j+1] == ')' {
+					s = s[:i] + s[i+1:j] + s[j+1:]
+					changed = true
+					break
+				}
+			}
+		}
+		if !changed {
+			return s
+		}
+	}
+}
